@@ -73,6 +73,42 @@ pub fn case(ctx: &Ctx, idx: u64) -> CaseOut {
             s = s2;
         }
     }
+    // a dummy tour that collects trips of two vehicle types (a whole vehicle becomes a dummy,
+    // then trips of a vehicle of another type are fitted into that dummy)
+    if b.inst.types.len() >= 2 && rng.chance(1, 2) {
+        let o = Obs::of(&b, &s);
+        let reals: Vec<_> = o.vehicles.keys().copied().collect();
+        if reals.len() >= 2 {
+            let v1 = *rng.pick(&reals);
+            let others: Vec<_> = reals.iter().copied().filter(|v| o.vehicles[v].vtype != o.vehicles[&v1].vtype).collect();
+            if !others.is_empty() {
+                if let p_hist::Applied::Ok { s: s1, .. } = p_hist::apply(&b, &s, &o, &p_hist::Op::ReplaceByDummy { v: v1 }) {
+                    let o1 = Obs::of(&b, &s1);
+                    if let Some(d) = o1.dummies.keys().copied().find(|d| !o.dummies.contains_key(d)) {
+                        let mut cur = s1;
+                        let mut mixed = false;
+                        for _ in 0..6 {
+                            let oc = Obs::of(&b, &cur);
+                            let v2 = *rng.pick(&others);
+                            let t2 = match oc.vehicles.get(&v2) {
+                                Some(t) => t,
+                                None => continue,
+                            };
+                            let (i, j) = p_hist::pick_segment(&mut rng, t2);
+                            if let p_hist::Applied::Ok { s: s2, .. } = p_hist::apply(&b, &cur, &oc, &p_hist::Op::Fit { p: v2, r: d, i, j }) {
+                                cur = s2;
+                                mixed = true;
+                            }
+                        }
+                        if mixed {
+                            s = cur;
+                            out.count("states_with_a_dummy_fed_from_two_types", 1);
+                        }
+                    }
+                }
+            }
+        }
+    }
     let production = rng.chance(2, 3);
     let nb = if production {
         production_neighborhood(b.net.clone())
